@@ -1255,6 +1255,7 @@ const WORDS: &[&str] = &[
     "a: b", "a:b", "a :b", ":a", "a:", "- a", "-a", "? a", "?a", "a #b", "a#b", "#a", "&a", "*a", "!a", "|", ">", "|a", "%a", "@a", "`a", "a, b", "[a]", "{a}", "a]", "a}",
     "'", "\"", "a'b", "a\"b", "it's", "\\", "a\\nb", " a", "a ", " ", "  ", "a  b", "é", "ü x", "日本", "😀", "a\u{a0}b", "\u{85}", "\u{2028}", "\u{feff}x", "\t", "a\tb", "\u{7f}", "\u{1}", "\u{0}", "\u{1b}[0m",
     "a\nb", "a\n", "\n", "a\n\nb", "a\r\nb", "<<", "=", "a=b", "http://x.y/z?q=1#f", "key: value", "- item", "# comment", "a,b", "1,2",
+    "a \"b", "a 'b", "x \"y\" z", "a,\"b", "0 \"\"9", "a | b", "a > b", "a |", "a >-", "say \"hi\"", "don't 'quote",
 ];
 
 pub fn gen_string(r: &mut Rng) -> String {
@@ -1531,7 +1532,7 @@ impl<'a> Gen<'a> {
                 }
                 let mut k = gen_string(self.r);
                 let mut tries = 0;
-                while entries.iter().any(|e| e.1 == k) || k.chars().count() > 200 {
+                while entries.iter().any(|e| e.1 == k) || k.chars().count() > 200 || k == "<<" {
                     tries += 1;
                     k = format!("{}{}", gen_string(self.r), tries);
                 }
@@ -1586,6 +1587,87 @@ impl<'a> Gen<'a> {
         let br = if self.o.breaks { *self.r.pick(&[Break::Lf, Break::Lf, Break::Crlf, Break::Cr]) } else { Break::Lf };
         PStream { docs, br }
     }
+}
+
+/// Deeply nested block collections (indentation steps 2–4, 14–24 levels, or as many as reach a
+/// chosen column) around a multi-line literal / folded block scalar whose content lines start at
+/// column 15…65 — the range where the vectorised block-scalar scanners count indentation in more than
+/// one lane — followed by sibling entries at every level.
+pub fn deep_stream(r: &mut Rng) -> PStream {
+    let target: Option<usize> = if r.chance(2, 3) { Some(*r.pick(&[15usize, 16, 17, 31, 32, 33, 34, 47, 48, 49, 63, 64, 65])) } else { None };
+    let mut steps: Vec<usize> = Vec::new();
+    let mut e = 0usize;
+    let ind;
+    match target {
+        Some(t) => {
+            while t - e > 4 {
+                let st = (*r.pick(&[2usize, 2, 3, 4])).min(t - e - 1);
+                steps.push(st);
+                e += st;
+            }
+            ind = t - e;
+        }
+        None => {
+            for _ in 0..r.range(14, 24) {
+                let st = *r.pick(&[2usize, 2, 3, 4]);
+                steps.push(st);
+                e += st;
+            }
+            ind = r.range(1, 4) as usize;
+        }
+    }
+    // the text: at least two non-empty lines
+    let mut s = String::new();
+    for _ in 0..20 {
+        s = gen_text(r);
+        if s.split('\n').filter(|l| !l.is_empty()).count() >= 2 && s.split('\n').all(bs_line_ok) {
+            break;
+        }
+        s = String::new();
+    }
+    if s.is_empty() {
+        s = (*r.pick(&["line one\nline two\nline three\n", "a\n  b\nc", "x: 1\ny: 2\n\n", "- a\n- b\n"])).to_string();
+    }
+    let chomp = *r.pick(&chomp_choices(&s));
+    let explicit = needs_explicit(&s) || r.chance(1, 3);
+    let can_fold = !s.starts_with('\n') && s.split('\n').all(|l| !l.starts_with(' '));
+    let st = if can_fold && r.chance(1, 2) {
+        let cs: Vec<char> = s.chars().collect();
+        let mut folds = Vec::new();
+        for i in 1..cs.len().saturating_sub(1) {
+            if cs[i] == ' ' && cs[i - 1] != ' ' && cs[i - 1] != '\n' && cs[i + 1] != ' ' && cs[i + 1] != '\n' && r.chance(1, 3) {
+                folds.push(i);
+            }
+        }
+        SStyle::Folded { chomp, ind, explicit, folds }
+    } else {
+        SStyle::Literal { chomp, ind, explicit }
+    };
+    let mut node = PNode::Str(s, st);
+    let mut first = true;
+    let nlev = steps.len();
+    for lv in (0..=nlev).rev() {
+        // level `lv` holds `node`; its own step (distance from its parent's entries) is steps[lv-1]
+        let step = if lv == 0 { 2 } else { steps[lv - 1] };
+        let is_seq = r.chance(1, 3);
+        let sib = first || r.chance(1, 2);
+        first = false;
+        if is_seq {
+            let mut items = vec![(Meta::default(), node)];
+            if sib {
+                items.push((Meta::default(), PNode::Int(lv as i64, 0)));
+            }
+            node = PNode::Seq { flow: false, step, compact: false, items };
+        } else {
+            let mut entries = vec![(Meta::default(), format!("k{lv}"), KStyle::Plain, node)];
+            if sib {
+                entries.push((Meta::default(), "after".to_string(), KStyle::Plain, PNode::Int(1, 0)));
+            }
+            node = PNode::Map { flow: false, step, compact: false, entries };
+        }
+    }
+    let br = *r.pick(&[Break::Lf, Break::Lf, Break::Crlf, Break::Cr]);
+    PStream { docs: vec![PDoc { fill: vec![], marker: r.chance(1, 4), end_marker: false, root: node, root_meta: Meta::default() }], br }
 }
 
 /// Does the node contain an alias (or a nested anchor) named `a`?
@@ -1645,6 +1727,9 @@ fn feat_node(n: &PNode, parent_compact: bool, flow: bool, out: &mut Vec<&'static
             if !flow && (s.contains('[') || s.contains('{')) {
                 out.push("plain-flowind");
             }
+            if !flow && plain_inner_indicator(s) {
+                out.push("plain-quote-bar");
+            }
             if flow && s.starts_with(':') {
                 out.push("flow-colon-plain");
             }
@@ -1679,6 +1764,9 @@ fn feat_node(n: &PNode, parent_compact: bool, flow: bool, out: &mut Vec<&'static
                 if !(*f || flow) && *ks == KStyle::Plain && (k.contains('[') || k.contains('{')) {
                     out.push("plain-flowind");
                 }
+                if !(*f || flow) && *ks == KStyle::Plain && plain_inner_indicator(k) {
+                    out.push("plain-quote-bar");
+                }
                 if (*f || flow) && *ks == KStyle::Plain && k.starts_with(':') {
                     out.push("flow-colon-plain");
                 }
@@ -1697,6 +1785,13 @@ fn feat_node(n: &PNode, parent_compact: bool, flow: bool, out: &mut Vec<&'static
 }
 
 /// Does the node's rendering span several lines?
+/// A quote, `|` or `>` inside a block-context plain scalar right after a character that is not
+/// alphanumeric (space, comma, …): a position where a validator could take it for a node start.
+fn plain_inner_indicator(s: &str) -> bool {
+    let cs: Vec<char> = s.chars().collect();
+    (1..cs.len()).any(|i| matches!(cs[i], '"' | '\'' | '|' | '>') && !cs[i - 1].is_alphanumeric())
+}
+
 fn multiline(n: &PNode) -> bool {
     match strip_anchor(n) {
         PNode::Str(_, SStyle::Literal { .. }) | PNode::Str(_, SStyle::Folded { .. }) => true,
@@ -1744,23 +1839,37 @@ pub fn features(ps: &PStream) -> String {
             }
         }
     }
-    // textual: a line ending in `:` (+ comment) followed by a line starting with a quote
-    let (t, _) = render_lf(ps);
-    let lines: Vec<&str> = t.split('\n').collect();
-    for (i, a) in lines.iter().enumerate() {
-        let a = match a.find(" #") {
-            Some(j) => &a[..j],
-            None => a,
-        };
-        if !a.trim_end_matches(' ').ends_with(':') {
+    // a block mapping key with nothing (or only a comment) after its `:` on the line, followed — after
+    // blank and comment lines — by a line that starts with a quote (token table: no guessing where a
+    // quoted key ends)
+    let (t, toks) = render_lf(ps);
+    let cs: Vec<char> = t.chars().collect();
+    for tok in toks.iter().filter(|k| k.is_key) {
+        let mut i = tok.end;
+        if cs.get(i) != Some(&':') {
             continue;
         }
-        // next line that is neither blank nor a comment
-        let next = lines[i + 1..].iter().map(|l| l.trim_start_matches(' ')).find(|l| !l.is_empty() && !l.starts_with('#'));
-        if let Some(b) = next {
-            if b.starts_with('"') || b.starts_with('\'') {
+        i += 1;
+        let eol = (i..cs.len()).find(|&j| cs[j] == '\n').unwrap_or(cs.len());
+        let rest: String = cs[i..eol].iter().collect();
+        let r = rest.trim_start_matches(' ');
+        if !(r.is_empty() || (rest.starts_with(' ') && r.starts_with('#'))) {
+            continue;
+        }
+        // next content line
+        let mut j = eol + 1;
+        while j < cs.len() {
+            let e = (j..cs.len()).find(|&q| cs[q] == '\n').unwrap_or(cs.len());
+            let line: String = cs[j..e].iter().collect();
+            let l = line.trim_start_matches(' ');
+            if l.is_empty() || l.starts_with('#') {
+                j = e + 1;
+                continue;
+            }
+            if l.starts_with('"') || l.starts_with('\'') {
                 out.push("qkey-after-empty");
             }
+            break;
         }
     }
     if t.contains("]:") || t.contains("}:") {
